@@ -23,12 +23,17 @@ def parse_ob(name, n, prefix="", flags=None, extra=(), timeout=900, mem=6, desc=
     return dict(name=name, harness="C28_uri.c", entry="harness_parse", defines=d, unwind=L + 3, unwindset=us,
                 cbmc=["--object-bits", "10"], solver=solver, timeout=timeout, mem_gb=mem, desc=desc)
 
-def setters_ob(name, ks=1, ku=1, kh=2, kx=-1, kp=3, kq=1, kf=1, flags=None, extra=(), timeout=900, mem=6, desc="", solver="cadical"):
+def setters_ob(name, ks=-1, ku=-1, kh=-1, kx=-1, kp=-1, kq=-1, kf=-1, port=None, flags=None, extra=(), timeout=900, mem=6, desc="", solver="cadical"):
+    """k* = longest string the solver may set for that component (-1: never set); port = (lo, hi) or None"""
     pos = lambda k: max(k, 0)
-    J = pos(ks) + pos(ku) + pos(kh) + pos(kx) + pos(kp) + pos(kq) + pos(kf) + 22
+    plen = 0 if port is None else 1 + max(len(str(port[0])), len(str(port[1])))
+    # scheme ":"  "//" userinfo "@" host|"unix:" sock ":"  ":" port  path  "?" query  "#" fragment  NUL
+    J = (pos(ks) + 1 if ks >= 0 else 0) + (2 if (kh >= 0 or kx >= 0) else 0) + (pos(ku) + 1 if ku >= 0 else 0) + \
+        max(pos(kh), pos(kx) + 6 if kx >= 0 else 0) + plen + pos(kp) + (pos(kq) + 1 if kq >= 0 else 0) + (pos(kf) + 1 if kf >= 0 else 0) + 1
     B = J + 2
     d = ["VP_KS=%d" % ks, "VP_KU=%d" % ku, "VP_KH=%d" % kh, "VP_KX=%d" % kx, "VP_KP=%d" % kp, "VP_KQ=%d" % kq, "VP_KF=%d" % kf,
-         "VP_N=%d" % J, "VP_STR_OBJ=%d" % (J + 2), "VP_BYTES_MAX=%d" % B, "VP_EVP_MAX=%d" % 24] + list(extra)
+         "VP_SJMAX=%d" % J, "VP_N=%d" % J, "VP_STR_OBJ=%d" % (J + 2), "VP_BYTES_MAX=%d" % B, "VP_EVP_MAX=%d" % (J + 8)] + list(extra)
+    d += ["VP_PORT_LO=%d" % (port[0] if port else 0), "VP_PORT_HI=%d" % (port[1] if port else -1)]
     if flags is not None: d.append("VP_FLAGS=%d" % flags)
     us = ["vpb_init.0:%d" % (2 * B + 1), "vpb_append.0:%d" % (2 * B + 1), "evbuffer_remove.0:%d" % (B + 1),
           "vp_opt_streq.0:%d" % (2 * J + 5), "vp_evp_num.0:7", "vp_evp_num.1:7", "vp_evp_num.2:7", "strchr.0:%d" % max(J + 2, 13),
@@ -52,6 +57,11 @@ def obligations(tier):
                  desc="parse-join-parse: '//' + any string <= %d bytes, all 8 flag combinations" % na),
         parse_ob("unix", nu, prefix="//unix:", flags=8, extra=["VP_WIT_UNIX"], timeout=T,
                  desc="components + parse-join-parse: '//unix:' + any string <= %d bytes, UNIX_SOCKET" % nu),
-        setters_ob("setters", timeout=T, desc="setters then join: scheme<=1 userinfo<=1 host<=2 path<=3 query<=1 fragment<=1 bytes, any port in [-2,70000], all flags"),
+        setters_ob("set_noauth", ks=1, kp=3, extra=["VP_WIT_REL"], timeout=T, desc="setters+join, no authority: scheme<=1, path<=3 bytes, all flags"),
+        setters_ob("set_qf", kp=1, kq=1, kf=1, extra=["VP_WIT_REL"], timeout=T, desc="setters+join: path<=1 query<=1 fragment<=1, all flags"),
+        setters_ob("set_nohost", ku=1, port=(-2, 9), kp=1, timeout=T, desc="setters+join, userinfo/port without host: userinfo<=1, port in [-2,9], path<=1"),
+        setters_ob("set_host", ku=1, kh=2, port=(-2, 99), kp=2, extra=["VP_WIT_FULL"], timeout=T, desc="setters+join: userinfo<=1 host<=2 port in [-2,99] path<=2, all flags"),
+        setters_ob("set_unix", ku=1, kh=0, kx=2, port=(-1, 0), kp=2, flags=8, timeout=T, desc="setters+join, UNIX_SOCKET: userinfo<=1 host<=0 socket<=2 port in [-1,0] path<=2"),
+        setters_ob("set_bigport", kh=1, port=(65534, 65537), timeout=T, desc="setters+join: host<=1, port in [65534,65537]"),
     ]
     return obs
